@@ -463,4 +463,92 @@ theorem commit_success_applied (s s' : Store) (keys : List Bytes) (T C : TS) (hs
       exact (KStep.commit l k T C hl hT hC).commit_makes_data (fun l' hl' => by
         rw [hl] at hl'; injection hl' with hl'; subst hl'; exact hop)
 
+/-! ### a definite failure: the transaction is never committed, on any key, and never becomes visible (C03) -/
+
+def NeverCommitted (T : TS) (s : Store) : Prop := ∀ k C, ¬ HasData (getEntry s.kv k) T C
+
+/-- what the owner knows when it reports a definite error: every commit request it sent for the primary was answered
+    with an error by the store (requests that were never executed are simply not in the run) -/
+def OwnerFails (T : TS) (p : Bytes) (s : Store) : Cmd → Prop
+  | .commit keys T' C => T' = T → p ∈ keys → (Mvcc.commit s keys T' C).2 ≠ none
+  | _ => True
+
+theorem NeverCommitted_step (T : TS) (p : Bytes) (s : Store) (c : Cmd) (hs : SInv s) (hok : c.Ok s)
+    (hd : Disc T p s c) (hf : OwnerFails T p s c) (hn : NeverCommitted T s) : NeverCommitted T (c.run s) := by
+  intro k C hdk
+  obtain ⟨labk, hlabk, hstk⟩ := (run_refines s c hs hok).2 k
+  rcases hstk.data_origin hdk with hold | hnew
+  · exact hn k C hold
+  · subst hnew
+    cases c with
+    | prewrite r => simp [Cmd.labels] at hlabk
+    | plock r => simp [Cmd.labels] at hlabk
+    | prollback a b keys T' F => simp [Cmd.labels] at hlabk
+    | rollback keys T' => simp [Cmd.labels] at hlabk
+    | cleanup k0 T' cur => simp [Cmd.labels] at hlabk
+    | status p0 T' caller cur rb rp => simp [Cmd.labels] at hlabk
+    | heartbeat k0 T' adv => simp [Cmd.labels] at hlabk
+    | gc a b sp => simp [Cmd.labels] at hlabk
+    | deleteRange a b => simp [Cmd.labels] at hlabk
+    | commit keys T' C' =>
+      simp only [Cmd.labels, reduceCtorEq, false_or, KLabel.commit.injEq] at hlabk
+      obtain ⟨_, hT, hC⟩ := hlabk
+      subst hT; subst hC
+      rcases hd rfl with hD | ⟨hpin, _, _⟩
+      · exact hn p _ hD
+      · have hfail := hf rfl hpin
+        cases herr : (Mvcc.commit s keys T C).2 with
+        | none => exact hfail herr
+        | some err =>
+          have hsame := commit_error_changes_nothing s (Mvcc.commit s keys T C).1 keys T C err (by rw [← herr])
+          have hk' : getEntry (Cmd.run s (Cmd.commit keys T C)).kv k = getEntry s.kv k := by
+            show getEntry (Mvcc.commit s keys T C).1.kv k = _; rw [hsame]
+          rw [hk'] at hdk
+          exact hn k _ hdk
+    | resolve a b T' C' =>
+      simp only [Cmd.labels, reduceCtorEq, false_or, KLabel.commit.injEq, and_false, or_false] at hlabk
+      obtain ⟨_, hpos, hT, hC⟩ := hlabk
+      subst hT; subst hC
+      exact hn p _ ((hd rfl).1 hpos)
+    | bresolve a b infos =>
+      simp only [Cmd.labels, reduceCtorEq, false_or, KLabel.commit.injEq, and_false, or_false] at hlabk
+      obtain ⟨_, q, hq, hpos, hT, hC⟩ := hlabk
+      subst hT; subst hC
+      exact hn p _ ((hd q hq rfl).1 hpos)
+
+def FailAll (T : TS) (p : Bytes) (s : Store) : List Cmd → Prop
+  | [] => True
+  | c :: rest => Disc T p s c ∧ OwnerFails T p s c ∧ FailAll T p (c.run s) rest
+
+theorem runAll_never_committed (T : TS) (p : Bytes) (s : Store) (cs : List Cmd) (hs : SInv s) (hok : OkAll s cs)
+    (hf : FailAll T p s cs) (hn : NeverCommitted T s) : NeverCommitted T (runAll s cs) := by
+  induction cs generalizing s with
+  | nil => exact hn
+  | cons c rest ih =>
+    exact ih (c.run s) (SInv_run s c hs hok.1) hok.2 hf.2.2 (NeverCommitted_step T p s c hs hok.1 hf.1 hf.2.1 hn)
+
+theorem firstVisible_mem {ws : List Write} {ts : TS} {w : Write} (h : firstVisible ws ts = some w) :
+    w ∈ ws ∧ w.vt ≠ .rollback := by
+  induction ws with
+  | nil => cases h
+  | cons x rest ih =>
+    simp only [firstVisible] at h
+    split at h
+    · obtain ⟨h1, h2⟩ := ih h; exact ⟨List.mem_cons_of_mem _ h1, h2⟩
+    · rename_i hx
+      split at h
+      · split at h
+        · cases h
+        · injection h with h; subst h
+          refine ⟨List.mem_cons_self .., ?_⟩
+          intro hv; simp [hv] at hx
+      · obtain ⟨h1, h2⟩ := ih h; exact ⟨List.mem_cons_of_mem _ h1, h2⟩
+
+/-- a transaction that is never committed is never visible: no read, at any timestamp, on any key, returns a version it wrote -/
+theorem NeverCommitted.invisible {T : TS} {s : Store} (hn : NeverCommitted T s) (k : Bytes) (ts : TS) (w : Write)
+    (h : firstVisible (getEntry s.kv k).writes ts = some w) : w.startTS ≠ T := by
+  intro hT
+  obtain ⟨hm, hv⟩ := firstVisible_mem h
+  exact hn k w.commitTS ⟨w, hm, hT, hv, rfl⟩
+
 end CGV.Mvcc
